@@ -758,6 +758,7 @@ func runC14(c *Ctx) {
 	c08Literals(c, "C14.10")
 	ruleNoRedundantSwitchBreak(c, "C14.11", "storage", "engine")
 	ruleNoStateBeforeRefusal(c, "C14.12")
+	c14CreateAtomic(c, "C14.13")
 }
 
 func c14RowValidationFirst(c *Ctx, rule string) {
